@@ -48,7 +48,7 @@ func (c *c08) Meta() engine.Meta {
 		LevelName: "number of deviations of the history from the default (each case = one history x one interrupted block, all its crash points)",
 		Technique: "exhaustive crash-point enumeration (directory snapshot inside a hook after every durable write) over deviation-bounded histories on the real application, recovery compared with the never-crashed replica",
 		Rule: "histories: the dense history (touches all seven ledgers and the EVM) in variants g3 / g4L, the small-stake history, a 12-block history that crosses the reward-hash record at version 10, plus every single appended deviation from a core menu; " +
-			"for EVERY block of each history the process dies after BeginBlock, after each DeliverTx, after EndBlock, and after each of Commit's durable writes (7 ledger versions, reward-hash record when written, EVM state commit, trie commit, root batch, last-block context, last-block height). A crash = copy of the directory taken inside the hook (kill -9: completed writes survive). " +
+			"for EVERY block of each history the process dies after BeginBlock, after each DeliverTx, after EndBlock, after each of Commit's durable writes, and after Commit has returned (7 ledger versions, reward-hash record when written, EVM state commit, trie commit, root batch, last-block context, last-block height). A crash = copy of the directory taken inside the hook (kill -9: completed writes survive). " +
 			"Recovery oracle per snapshot: the application reopens; Info reports (h-1, hash(h-1)) or (h, hash(h)); the interrupted block replays with the same results; all remaining blocks produce the never-crashed replica's app hashes. " +
 			"evaluations = (history, interrupted block) cases, counters.recoveries = snapshots recovered; snapshots whose on-disk image is byte-identical to an already recovered one are counted, not re-run. " +
 			"distinct_nontrivial = cases with at least one crash point strictly inside Commit.",
@@ -195,6 +195,7 @@ func (c *c08) RunDesc(desc json.RawMessage) engine.Result {
 			inCommit = true
 		case "post-commit":
 			inCommit = false
+			take("after-Commit")
 		}
 	}
 	a := sim.Run(base, h, hk)
